@@ -157,6 +157,8 @@ SRC = {
         '</dtml-let><dtml-var pa2>'
         '</dtml-with><dtml-var pa1>'
         '<dtml-var pb6><dtml-with obj><dtml-call meth><dtml-in fseq><dtml-call f8></dtml-in></dtml-with><dtml-var pa6>'
+        '<dtml-var pb7><dtml-let k=f9><dtml-with w only mapping><dtml-var wx><dtml-call "1"></dtml-with><dtml-call f10>'
+        '<dtml-with obj only><dtml-call meth><dtml-var ov></dtml-with></dtml-let><dtml-var pa7>'
     ),
     'try': (
         '<dtml-var pb1><dtml-try><dtml-call f1><dtml-with w mapping><dtml-call f2></dtml-with>'
